@@ -149,7 +149,7 @@ example : (13 + 3) % 8 = 0 := by decide
     (`(align - offset % align) % align`) does not align the address when the base is odd, and an
     offset kept across a buffer switch (`with_capacity(8)`, a `u64`, then a 16-byte value into the new
     16-byte buffer at the old offset 8) ends at 24 > 16. -/
-theorem C38_old_code_counterexample :
+theorem C38_d14_arithmetic_witness :
     (1001 + (0 + padding 0 8)) % 8 ≠ 0 ∧ (8 + padding 8 8) + 16 > max (2 * 8) 16 := by decide
 
 end Abra.Arena
